@@ -99,6 +99,7 @@ package cbreaker
 
 //@ func (*CircuitBreaker).exec
 //@   props C18
+//@   holds c.m
 //@   ensures nil_is_noop: s == nil ==> calls("go:exec$1") == 0
 //@   ensures one_goroutine: s != nil ==> calls("go:exec$1") == 1
 
